@@ -62,12 +62,20 @@ def run_one(ck, prog):
           detail=f"RW={RWAIT} WW={WWAIT} MASK={MASK}")
 
     fields = locks.find_atomic_fields(prog, RW)
-    names = sorted(f[1] for f in fields)
-    ck.ob("C02.0", "words|state+writer_notify", names == ["state", "writer_notify"], detail=f"atomic fields reachable from RwLock: {fields}")
-    if names != ["state", "writer_notify"]:
+    # the two words are told apart by what is done to them, not by their names: the state word is the one that is compare-exchanged,
+    # the writers' sequence word (`writer_notify`) is only loaded and bumped
+    cands = sorted({(f[0], f[1]) for f in fields})
+    ck.ob("C02.0", "words|state+writer_notify", len(cands) == 2, detail=f"atomic fields reachable from RwLock: {fields} (expected two: the state word and the writers' sequence word)")
+    if len(cands) != 2:
         return
-    STATE, NOTIFY = (INNER, "state"), (INNER, "writer_notify")
-    ops = locks.word_ops(prog, {STATE, NOTIFY})
+    all_ops = locks.word_ops(prog, set(cands))
+    cas_words = {(op.target[1], op.target[2]) for _, op in all_ops if op.op.startswith("compare_exchange")}
+    ck.ob("C02.0", "words|exactly-one-is-compare-exchanged", len(cas_words) == 1, detail=f"words with compare_exchange operations: {sorted(cas_words)}")
+    if len(cas_words) != 1:
+        return
+    STATE = next(iter(cas_words))
+    NOTIFY = next(c for c in cands if c != STATE)
+    ops = all_ops
     passes = locks.word_passes(prog, {STATE, NOTIFY})
     cg = prog.callgraph()
 
@@ -576,7 +584,8 @@ def ok_edges_of(ctx, cas_bb):
             continue
         for e in ctx.cfg.succ[sb]:
             for f in ctx.edge_facts(e):
-                if f[0] == "variant" and f[2] == "Ok" and isinstance(f[1], tuple) and f[1][0] == "call" and f[1][3] == cas_bb:
+                x = locks.through_result_adapters(f[1]) if f[0] == "variant" else None
+                if f[0] == "variant" and f[2] == "Ok" and isinstance(x, tuple) and x[0] == "call" and x[3] == cas_bb:
                     out.append(e)
     return out
 
@@ -588,8 +597,26 @@ def err_edges_of(ctx, cas_bb):
             continue
         for e in ctx.cfg.succ[sb]:
             for f in ctx.edge_facts(e):
-                if f[0] == "variant" and f[2] == "Err" and isinstance(f[1], tuple) and f[1][0] == "call" and f[1][3] == cas_bb:
+                x = locks.through_result_adapters(f[1]) if f[0] == "variant" else None
+                if f[0] == "variant" and f[2] == "Err" and isinstance(x, tuple) and x[0] == "call" and x[3] == cas_bb:
                     out.append(e)
+    return out
+
+
+def bit_test_edges(ctx, bit, X):
+    """edges on which (X & bit) != 0 holds (X = canonical state value, or any when None)"""
+    out = []
+    for sb in ctx.cfg.live_blocks():
+        if ctx.cfg.term(sb)["k"] != "switch":
+            continue
+        for e in ctx.cfg.succ[sb]:
+            for f in ctx.edge_facts(e):
+                if f[0] == "cmp" and f[1] == "Ne" and 0 in (const_value(f[2]), const_value(f[3])):
+                    m = strip_casts(f[3] if const_value(f[2]) == 0 else f[2])
+                    if isinstance(m, tuple) and m[0] == "bin" and m[1] == "BitAnd" and bit in (const_value(m[2]), const_value(m[3])):
+                        other = m[3] if const_value(m[2]) == bit else m[2]
+                        if X is None or canon(other) == X:
+                            out.append(e)
     return out
 
 
@@ -607,6 +634,36 @@ def bit_announced(ctx, wait_bb, statev, pred, bit, cls):
     for e, call in edges_with_truth(ctx, pred, True):
         if call[2] and canon(call[2][0]) == X:
             cut.add((e.src, e.dst))
+    # the same test written out: (X & bit) != 0
+    bt = bit_test_edges(ctx, bit, X)
+    for e in bt:
+        cut.add((e.src, e.dst))
+    # a Result merged from several places (an expanded helper with an early `return Ok(())`): its Ok edge announces the bit when
+    # every definition does - the preserving CAS itself (through map/ok adapters) or an Ok built under the bit test above
+    announcing_cas = {bb for (p, bb), (k, op, c) in cls.items() if p == ctx.path and k == "preserve" and op.op.startswith("compare_exchange") and
+                      isinstance(strip_casts(op.args[1]), tuple) and strip_casts(op.args[1])[0] == "bin" and strip_casts(op.args[1])[1] == "BitOr" and
+                      bit in (const_value(strip_casts(op.args[1])[2]), const_value(strip_casts(op.args[1])[3])) and canon(op.args[0]) == X}
+    for sb in ctx.cfg.live_blocks():
+        if ctx.cfg.term(sb)["k"] != "switch":
+            continue
+        for e in ctx.cfg.succ[sb]:
+            for f in ctx.edge_facts(e):
+                if f[0] == "variant" and f[2] == "Ok" and isinstance(strip_casts(f[1]), tuple) and strip_casts(f[1])[0] == "var":
+                    v = strip_casts(f[1])
+                    defs = ctx.prov.reaching((v[1], None), (e.src, 0))
+                    good = bool(defs)
+                    for d in defs:
+                        if d[0] == "param":
+                            good = False
+                            continue
+                        dx = locks.through_result_adapters(ctx.prov.def_expr(d, (v[1], None), 0, frozenset()))
+                        if isinstance(dx, tuple) and dx[0] == "call" and dx[3] in announcing_cas:
+                            continue
+                        if isinstance(dx, tuple) and dx[0] == "agg" and dx[2] == "Ok" and any(ctx.cfg.edge_dominates(be, d[0]) for be in bt):
+                            continue
+                        good = False
+                    if good:
+                        cut.add((e.src, e.dst))
     nxt = ctx.cfg.term(wait_bb).get("t")
     r = ctx.cfg.reachable_from(0, avoid_edges=cut)
     if wait_bb in r:
@@ -626,6 +683,8 @@ def bit_announced_any(ctx, wait_bb, pred, bit, cls):
             for e in ok_edges_of(ctx, bb):
                 cut.add((e.src, e.dst))
     for e, call in edges_with_truth(ctx, pred, True):
+        cut.add((e.src, e.dst))
+    for e in bit_test_edges(ctx, bit, None):
         cut.add((e.src, e.dst))
     nxt = ctx.cfg.term(wait_bb).get("t")
     if wait_bb in ctx.cfg.reachable_from(0, avoid_edges=cut):
